@@ -651,3 +651,11 @@ Example C02_hazard_classes_separate_the_witnesses :
   hazard_case 3 w_confirm_vs_static_same_path w_confirm_vs_static_same_path_r1
                 w_confirm_vs_static_same_path_r2 = ([], [], 2).
 Proof. vm_compute. repeat split; reflexivity. Qed.
+
+(* the decidable hypothesis hazard_free excludes less than the fragment fresh_req of model/Commute.v
+   (issuer attached, NO stale path mentioned at all, defined label absent): every fresh request is
+   hazard free; a stale OUTPUT path, a stale path declared static, a stale unwired non-volatile input
+   are hazard free and not fresh *)
+Theorem C02_fresh_implies_hazard_free :
+  forall o s, fresh_req o s = true -> hazard_free o s = true.
+Proof. exact fresh_req_hazard_free. Qed.
